@@ -122,6 +122,10 @@ def grep_forbidden(files):
     return hits
 
 
+FACTS = {"C03": ["Formats"], "C04": ["Formats"], "C05": ["Formats"], "C18": ["Formats", "Reads"], "C20": ["Formats"],
+         "C09": ["Ranges"], "C08": ["Safety"], "C06": ["Literals"], "C07": ["Literals"]}
+
+
 def audit_axioms(pid):
     """Run the audit file for a property; returns (theorems{name: [axioms]}, raw output, ok)."""
     audit = os.path.join("BklProofs", "Audit", pid + ".lean")
@@ -139,10 +143,57 @@ def audit_axioms(pid):
     return thms, out, ok
 
 
+def lean_str(s):
+    return json.dumps(s, ensure_ascii=False)
+
+
+def gen_facts():
+    """Run the extractor on REPO's working tree and (re)write lean/Generated/Facts.lean when the facts changed."""
+    exe = os.path.join(BIN, "extract")
+    if not os.path.exists(exe):
+        return None
+    r = sh([exe, REPO], check=False, timeout=300)
+    if r.returncode != 0:
+        return None
+    f = json.loads(r.stdout)
+    os.makedirs(BUILD, exist_ok=True)
+    open(os.path.join(BUILD, "facts.json"), "w").write(r.stdout)
+
+    def sites(xs):
+        return "[" + ", ".join(f"({lean_str(x['file'])}, {lean_str(x['func'])}, {lean_str(x['what'])})" for x in (xs or [])) + "]"
+    recog = [l for l in (f.get("dollarLits") or []) if " " not in l and "%" not in l and "=" not in l]
+    text = "\n".join([
+        "/- GENERATED by /verif/harness/cmd/extract from /repo's current source. Do not edit. -/",
+        "namespace Bkl.Facts",
+        "def formatTable : List (String × String × String) := [" + ", ".join(
+            f"({lean_str(a)}, {lean_str(b)}, {lean_str(c)})" for a, b, c in (f.get("formatTable") or [])) + "]",
+        "def rawMapRanges : List (String × String × String) := " + sites(f.get("rawMapRanges")),
+        "def typeAsserts : List (String × String × String) := " + sites(f.get("typeAsserts")),
+        "def pkgVarKinds : List String := [" + ", ".join(lean_str(x["what"]) for x in (f.get("pkgVars") or [])) + "]",
+        "def pkgVarWrites : List (String × String × String) := " + sites(f.get("pkgVarWrites")),
+        "def fileReads : List (String × String × String) := " + sites(f.get("fileReads")),
+        "def recogniserLits : List String := [" + ", ".join(lean_str(x) for x in recog) + "]",
+        "def depthGuards : List (String × String × String) := " + sites(f.get("depthGuards")),
+        "def cliOptions : List (String × String × String) := " + sites(f.get("cliOptions")),
+        "def goStatements : List (String × String × String) := " + sites(f.get("goStatements")),
+        "end Bkl.Facts", ""])
+    path = os.path.join(LEAN, "Generated", "Facts.lean")
+    os.makedirs(os.path.dirname(path), exist_ok=True)
+    with Lock("lake"):
+        old = open(path).read() if os.path.exists(path) else None
+        if old != text:
+            open(path, "w").write(text)
+    return f
+
+
 def proof_step(pid, extra_targets=()):
-    """Kernel-check the property's theorems. Returns a dict for evidence + a list of broken obligations."""
+    """Kernel-check the property's theorems (and the fact theorems over the regenerated tables).
+    Returns a dict for evidence + a list of broken obligations."""
     t0 = time.time()
     broken = []
+    facts = gen_facts()
+    if facts is None:
+        broken.append({"obligation": "fact extraction from /repo (harness/cmd/extract)", "detail": "extractor failed"})
     ok, out = build_lean(["BklProofs." + pid] + list(extra_targets))
     if not ok:
         errs = [l for l in out.split("\n") if "error" in l][:20]
@@ -152,6 +203,17 @@ def proof_step(pid, extra_targets=()):
         thms, aout, aok = audit_axioms(pid)
         if not aok:
             broken.append({"obligation": f"axiom audit of BklProofs.{pid}", "detail": aout[-2000:]})
+    for g in FACTS.get(pid, []):
+        fok, fout = build_lean(["BklProofs.Facts." + g])
+        if not fok:
+            errs = [l for l in fout.split("\n") if "error" in l][:10]
+            broken.append({"obligation": f"fact theorems BklProofs.Facts.{g} over the regenerated Generated/Facts.lean", "detail": errs})
+            continue
+        fth, fo, fk = audit_axioms("Facts" + g)
+        thms.update(fth)
+        if not fk:
+            broken.append({"obligation": f"axiom audit of BklProofs.Facts.{g}", "detail": fo[-1000:]})
+            aok = False
     files = [os.path.join(LEAN, "BklProofs", pid + ".lean")]
     for root, _, fs in os.walk(os.path.join(LEAN, "BklProofs", "Lemmas")):
         files += [os.path.join(root, f) for f in fs if f.endswith(".lean")]
